@@ -231,6 +231,9 @@ func c17CheckPrev(cs *drv.Case) {
 // c17Stream: every BufferReader operation on a valid stream cut at `cut` with source error e.
 func c17Stream(cs *drv.Case, vals []cval, stream []byte, cut int, e error, withData bool, sched int) {
 	src := &doubles.Source{Data: stream, Len: len(stream), ErrAt: cut, Err: e, WithData: withData, Sched: sched, R: cs.R, ZeroMax: 1, Budget: 10*len(stream) + 100000}
+	if e != io.EOF && cut%3 == 0 {
+		src.AfterErr = io.EOF // the source reports its error once (maybe with its last bytes) and plain EOF afterwards
+	}
 	dr := bufiox.NewDefaultReader(src)
 	br := thrift.NewBufferReader(dr)
 	defer func() {
